@@ -390,6 +390,25 @@ def run_keygen(n, f, ctx):
         ctx.count("keys-generated")
     if len(set(vals)) != len(vals):
         f["C18:repeated-generated-key:RSA"] = "two generated RSA keys are equal"
+    # sizes at the edges of what the library / backend takes: the call may refuse, a key it returns has the requested size
+    for bits in (512, 768, 1000, 1016, 1032, 1536):
+        for gen in (lambda: RSAKey.generate_key(bits), lambda: JWKRegistry.generate_key("RSA", bits), lambda: RSAKey.generate_key(bits, private=False)):
+            try:
+                k = gen()
+            except Exception:
+                ctx.count("rsa-size-refused")
+                continue
+            n_ = rb.b64_to_int(k.as_dict()["n"])
+            ctx.count("keys-generated")
+            if n_.bit_length() != bits:
+                f[f"C18:rsa-key-size:{bits}"] = f"generate_key({bits}) returned a key of {n_.bit_length()} bits"
+    for bits in (72, 96, 520):
+        try:
+            raw = rb.decode(OctKey.generate_key(bits).as_dict()["k"])
+        except Exception:
+            continue
+        if len(raw) * 8 != bits:
+            f[f"C18:oct-key-size:{bits}"] = f"generate_key({bits}) gave {len(raw) * 8} bits"
     # key sets generated in one call: every member is a key of its own
     from joserfc.jwk import KeySet
     for kty, arg, member in (("oct", 128, "k"), ("oct", 256, "k"), ("EC", "P-256", "d"), ("EC", "P-521", "d"), ("OKP", "Ed25519", "d"), ("OKP", "X448", "d"), ("RSA", 1024, "n")):
